@@ -15,7 +15,13 @@ package scen
 // "Sent" means: the request reached the message sender while its context was
 // live. FullRT returns before all of its requests completed (sloppy exit) and
 // cancels the rest; a request that was cancelled after it reached the sender
-// still counts as sent.
+// still counts as sent. While the operation has NOT returned, however, nothing
+// but the configured time-out per operation may cancel a request in flight
+// (frt-inflight-cancelled, frt-cancelled-by-failure; see c06.go choose /
+// checkInflight).
+//
+// The host's addresses change between operations (with or without the
+// address-update event); a provide advertises what the host has when it runs.
 
 import (
 	"context"
@@ -45,7 +51,8 @@ func init() {
 		Stub: []string{"host.Host/network (simhost)", "pb.MessageSender (level A, simnet.Sender behind a recording wrapper)", "crawler (stub: reports a drawn set of peers as reachable)", "remote peers (scripted)", "datastore (simds, recording)", "validator (harness rank validator)"},
 		Faults: []string{"fault_recipient_fail", "fault_recipient_hang", "fault_recipient_slow", "fault_recipient_bad_echo", "time_advance",
 			"probe_fullrt_put_ok", "probe_fullrt_provide_ok", "probe_fullrt_op_failed", "probe_fullrt_inflight_at_return", "probe_fullrt_empty_table", "probe_fullrt_no_addrs",
-			"probe_recipient_failed_others_served", "probe_recipient_hung_others_served"},
+			"probe_recipient_failed_others_served", "probe_recipient_hung_others_served",
+			"probe_recipient_failed_while_others_inflight", "probe_addrs_changed_with_event", "probe_addrs_changed_silently", "probe_provide_after_addr_change"},
 	})
 }
 
@@ -131,23 +138,32 @@ func runC06FullRT(s *sim.Sim) {
 		panic(err)
 	}
 	defer closeAndCensus(s, func() { _ = frt.Close(); _ = hst.Close() })
+	defer w.endOp()
+	w.prefix = "frt"
+	// documented option, chosen above: no request is given up earlier than this
+	// long after its operation started (unless the operation returns)
+	w.patience = perOp
 	s.Quiesce() // the first crawl runs at once
 
 	// host addresses for Provide
 	pal := c06Palette(u)
-	var addrs []ma.Multiaddr
-	if !s.Chance("no-addrs", 1, 6) {
-		arng := newSubRng(s, "addrs")
-		for _, a := range pal {
-			if arng.Intn(2) == 0 && len(addrs) < 6 {
-				addrs = append(addrs, a)
+	drawAddrs := func(sfx string) []ma.Multiaddr {
+		var addrs []ma.Multiaddr
+		if !s.Chance("no-addrs"+sfx, 1, 6) {
+			arng := newSubRng(s, "addrs"+sfx)
+			for _, a := range pal {
+				if arng.Intn(2) == 0 && len(addrs) < 6 {
+					addrs = append(addrs, a)
+				}
 			}
 		}
+		if len(addrs) == 0 {
+			s.Count("probe_fullrt_no_addrs")
+		}
+		return addrs
 	}
+	addrs := drawAddrs("")
 	hst.SetAddrs(addrs)
-	if len(addrs) == 0 {
-		s.Count("probe_fullrt_no_addrs")
-	}
 	if len(crawled) == 0 {
 		s.Count("probe_fullrt_empty_table")
 	}
@@ -166,7 +182,23 @@ func runC06FullRT(s *sim.Sim) {
 	}
 
 	nOps := 1 + s.Draw("ops", 2)
+	addrChanges := 0
 	for i := 0; i < nOps && !s.Failed(); i++ {
+		if i > 0 && s.Chance("addr-change", 1, 2) {
+			// the host's addresses change between two operations, announced on
+			// the event bus or not (see runC06Provide)
+			addrs = drawAddrs(fmt.Sprintf("-%d", i))
+			hst.SetAddrs(addrs)
+			addrChanges++
+			announced := s.Chance("addr-event", 1, 2)
+			if announced {
+				c06EmitAddrsUpdated(s, hst)
+				s.Count("probe_addrs_changed_with_event")
+			} else {
+				s.Count("probe_addrs_changed_silently")
+			}
+			s.Tracef("host addresses changed: host=%d event=%v", len(addrs), announced)
+		}
 		if s.Draw("kind", 2) == 0 {
 			key := fmt.Sprintf("key-%d", s.Draw("key", 1<<16))
 			val := rankValue(1+s.Draw("rank", 3), time.Time{}, key)
@@ -218,7 +250,11 @@ func runC06FullRT(s *sim.Sim) {
 			}
 			w.finishInflight()
 			R1, ok1 := closest(string(sum))
+			if addrChanges > 0 {
+				s.Count("probe_provide_after_addr_change")
+			}
 			// FullRT has no address filter: it advertises the host's addresses
+			// (those it had while this provide ran)
 			msgs, good := w.checkProvideContent(ob, sum, addrs)
 			if !good || !ok0 || !ok1 || !sameSet(R0, R1) {
 				continue
